@@ -29,6 +29,7 @@ class Contract:
     mutants: list = dataclasses.field(default_factory=list)    # (old text, new text) must be killed
     consts: dict = dataclasses.field(default_factory=dict)     # module-level constants
     stmt: str = ''                   # statement contract: name assigned inside the function
+    stmt_like: str = ''              # shape of the statement's right-hand side (names may be renamed)
     block: tuple = ()                # block contract: (first assigned name, last assigned name)
     custom: object = None            # callable(verifier, contract, fdef, consts) -> obligations
     tag: str = ''                    # distinguishes several contracts on one function
